@@ -11,7 +11,7 @@ EXPLANATION = ('llsym (real-algebraic) runs the real mj_sensorPos / mj_sensorVel
                '(jointpos, tendonpos, clock, jointvel, tendonvel) whose address, object id, cutoff and datatype are symbolic: each sensor writes exactly sensordata[adr .. adr+dim) - every other cell '
                'of sensordata keeps its value - with the documented source quantity, clamped to [-cutoff, cutoff] for REAL data, to (-inf, cutoff] for POSITIVE data, unclamped when cutoff <= 0; '
                'sensors of another stage are not touched; mjDSBL_SENSOR disables everything.')
-BOUNDS = {'quick': {'sensors': 2, 'sensordata cells': 4, 'objects': '2 joints / tendons'}, 'thorough': {'sensors': 2, 'pairs': 'all ordered pairs of the five kinds'}}
+BOUNDS = {'quick': {'sensors': 2, 'sensordata cells': 4, 'objects': '2 joints / tendons', 'pairs': 'all ordered pairs of the position-stage kinds; 13 frame-velocity object / reference combinations; cutoff dim 1, 3, 6'}, 'thorough': {'same': True}}
 OUTSIDE = 'frame, inertial, force/torque, touch, subtree, rangefinder, contact sensors (need kinematics / contacts); history, delay and interval modes; plugin and user sensors.'
 ASSUMPTIONS = ['real-number semantics', 'sensor_adr + dim within sensordata and sensors do not overlap (compiler invariant)', 'sleep disabled, no history']
 BUDGET = {'quick': 400, 'thorough': 1500}
@@ -189,10 +189,10 @@ def units(tier):
          ('vel_jointvel_tendonvel', 'unit_sensors', {'stage': 'Vel', 'kinds': ['jointvel', 'tendonvel']}), ('vel_jointpos_jointvel', 'unit_sensors', {'stage': 'Vel', 'kinds': ['jointpos', 'jointvel']}),
          ('pos_disabled', 'unit_sensors', {'stage': 'Pos', 'kinds': ['jointpos', 'clock'], 'disabled': 1})]
     fv = [('SITE', 'SITE', 1, 0), ('SITE', 'SITE', 0, 1), ('SITE', 'SITE', 1, -1), ('SITE', 'XBODY', 0, 2), ('SITE', 'XBODY', 1, 0), ('XBODY', 'SITE', 2, 0)]
-    if tier != 'quick': fv += [('SITE', 'SITE', 0, 0), ('SITE', 'XBODY', 1, 1), ('XBODY', 'XBODY', 1, 2), ('XBODY', 'XBODY', 2, -1), ('BODY', 'BODY', 2, 1), ('BODY', 'SITE', 1, 1), ('SITE', 'BODY', 0, 2)]
+    if True: fv += [('SITE', 'SITE', 0, 0), ('SITE', 'XBODY', 1, 1), ('XBODY', 'XBODY', 1, 2), ('XBODY', 'XBODY', 2, -1), ('BODY', 'BODY', 2, 1), ('BODY', 'SITE', 1, 1), ('SITE', 'BODY', 0, 2)]
     u += [('framevel_%s%d_%s%d' % (a, i, b, j), 'unit_framevel', {'objkind': a, 'refkind': b, 'oid': i, 'rid': j}) for a, b, i, j in fv]
-    u += [('apply_cutoff_dim%d' % d, 'unit_cutoff', {'dim': d}) for d in ((1, 3) if tier == 'quick' else (1, 3, 6))]
-    if tier == 'thorough':
+    u += [('apply_cutoff_dim%d' % d, 'unit_cutoff', {'dim': d}) for d in (1, 3, 6)]
+    if True:
         import itertools
         for a, b in itertools.permutations(['jointpos', 'tendonpos', 'clock'], 2): u.append(('pos_%s_%s' % (a, b), 'unit_sensors', {'stage': 'Pos', 'kinds': [a, b]}))
     return u
